@@ -119,8 +119,11 @@ def main(tier, seed):
     # only maximal histories need to run when shutdown is explored at every prefix: a history is a prefix of
     # its extensions, but shutdown in each mode at each point is part of the alphabet, so run them all
     items = []
+    short = R.histories(5)
     for li, lay in enumerate(layouts(tier)):
-        hh = hs + (hs3 if li < 2 else [])
+        # the five hand-written layouts get the full history sets; the 24 generated permutation layouts of the thorough
+        # tier (declaration orders x flags) get every four-word history up to depth 5
+        hh = (hs + (hs3 if li < 2 else [])) if li < 5 else short
         for i in range(0, len(hh), 40):
             items.append(dict(layout=lay, histories=hh[i:i + 40], seed=seed))
     res = core.Result()
